@@ -8,6 +8,7 @@ an open is ONE fetch_add and a close ONE fetch_sub is extracted from dispatch.rs
 -/
 import TracingModel.Props.C02G
 import TracingModel.Lemmas.AtomicCount
+import TracingModel.Lemmas.ScopeRace
 
 namespace C02
 open TM.AtomicCount TM.Gen.AtomicCounts
@@ -41,5 +42,43 @@ theorem scope_counter_witness :
     finished (run false true (fun _ => .inc) (start 0) [0, 1, 0, 1]) [0, 1] = 2 := by decide
 
 example : (run scopeOpenIsRmw true (fun t => if t < 2 then .dec else .inc) (start 2) [3, 0, 2, 1, 4]).c = 3 := by decide
+
+/-! ### scoped defaults of several threads and the fast path, together
+
+Core/ScopeRace: every thread runs its own sequence of `set_default` / guard drop / `get_default` calls, each call a few atomic
+steps (thread-local replace, counter bump; counter drop, thread-local restore), the schedule interleaves the threads' steps
+arbitrarily.  The counter is shared, everything else is thread-local. -/
+
+open TM.ScopeRace in
+/-- **C02.scoped_default_interleaved** — any threads, any programs, every interleaving of their atomic steps as the code
+performs them: whenever a thread that is between calls asks for the default, it gets the collector of its OWN innermost live
+scope, else the global default — whatever scopes other threads are opening or closing at that moment -/
+theorem scoped_default_interleaved (g : Option Nat) (ths : List Nat) (hnd : ths.Nodup)
+    (sched : List (Nat × TM.ScopeRace.Act)) (hs : ∀ ta ∈ sched, ta.1 ∈ ths) (t : Nat) (ht : t ∈ ths)
+    (hidle : (TM.ScopeRace.run scopeOpenIsRmw g TM.ScopeRace.start sched).pc t = .idle) :
+    (TM.ScopeRace.step scopeOpenIsRmw g (TM.ScopeRace.run scopeOpenIsRmw g TM.ScopeRace.start sched) (t, .get)).last t
+      = some (TM.ScopeRace.expected g (TM.ScopeRace.run scopeOpenIsRmw g TM.ScopeRace.start sched) t) := by
+  rw [scope_counter_code_facts.1] at hidle ⊢
+  exact TM.ScopeRace.get_expected g ths _ (TM.ScopeRace.run_inv g ths hnd sched hs _ (TM.ScopeRace.inv_start ths)) t ht hidle
+
+/-- **C02.other_threads_untouched** — a step of another thread changes neither a thread's live scopes nor its thread-local
+default ("never affect another thread") -/
+theorem other_threads_untouched (rmw : Bool) (g : Option Nat) (s : TM.ScopeRace.S) (u : Nat) (a : TM.ScopeRace.Act) (t : Nat) (h : t ≠ u) :
+    (TM.ScopeRace.step rmw g s (u, a)).guards t = s.guards t ∧ (TM.ScopeRace.step rmw g s (u, a)).tl t = s.tl t ∧
+    (TM.ScopeRace.step rmw g s (u, a)).pc t = s.pc t := by
+  unfold TM.ScopeRace.step
+  simp only
+  cases s.pc u <;> cases a <;> simp [TM.ScopeRace.updF, h] <;> (try split) <;> (try cases s.guards u) <;> simp [TM.ScopeRace.updF, h]
+
+/-- **C02.scoped_default_witness** — it depends on the counter bump being one atomic operation: with load-then-store, two threads
+open a scope together (one bump is lost), the first closes its scope, and the second — still inside its own — is handed the
+global default (here: none) -/
+theorem scoped_default_witness :
+    let s := TM.ScopeRace.run false none TM.ScopeRace.start
+      [(0, .open 10), (1, .open 11), (0, .step), (1, .step), (0, .step), (1, .step), (0, .close), (0, .step), (1, .get)]
+    s.last 1 = some none ∧ TM.ScopeRace.expected none s 1 = some 11 := by decide
+
+example : (TM.ScopeRace.run scopeOpenIsRmw (some 7) TM.ScopeRace.start
+    [(0, .open 10), (1, .open 11), (0, .step), (1, .step), (0, .close), (0, .step), (1, .get), (0, .get)]).last 1 = some (some 11) := by decide
 
 end C02
